@@ -313,9 +313,21 @@ type c19Proc struct {
 	done chan error
 }
 
-func c19Start(bin string, args []string, port int) (*c19Proc, error) {
-	p := &c19Proc{base: fmt.Sprintf("http://127.0.0.1:%d", port), out: &bytes.Buffer{}, done: make(chan error, 1)}
-	p.cmd = exec.Command(bin, append([]string{"serve", "--addr", "127.0.0.1", "--port", fmt.Sprint(port)}, args...)...)
+// c19HasIPv6 tells whether this machine can listen on the IPv6 loopback address at all.
+var c19HasIPv6 = sync.OnceValue(func() bool {
+	l, err := net.Listen("tcp", "[::1]:0")
+	if err != nil {
+		return false
+	}
+	_ = l.Close()
+	return true
+})
+
+// c19Start runs "olareg serve --addr <addr> --port <port> ..."; addr is what the flag help calls "listener interface or
+// address": an IPv4 or IPv6 literal or a host name.
+func c19Start(bin string, args []string, addr string, port int) (*c19Proc, error) {
+	p := &c19Proc{base: "http://" + net.JoinHostPort(strings.Trim(addr, "[]"), fmt.Sprint(port)), out: &bytes.Buffer{}, done: make(chan error, 1)}
+	p.cmd = exec.Command(bin, append([]string{"serve", "--addr", addr, "--port", fmt.Sprint(port)}, args...)...)
 	p.cmd.Stdout, p.cmd.Stderr = p.out, p.out
 	if err := p.cmd.Start(); err != nil {
 		return nil, err
@@ -423,7 +435,15 @@ func c19CLIProperty(t *rapid.T, st *Stats) {
 	defer os.RemoveAll(tmp)
 	dir := filepath.Join(tmp, "data")
 	_ = os.MkdirAll(dir, 0o755)
-	trace := []string{fmt.Sprintf("olareg serve %s ; signal %v %s", strings.Join(v.args("<dir>"), " "), sig, moment)}
+	addrs := []string{"127.0.0.1", "127.0.0.1", "127.0.0.1"}
+	if h, err := net.LookupHost("localhost"); err == nil && len(h) > 0 {
+		addrs = append(addrs, "localhost")
+	}
+	if c19HasIPv6() {
+		addrs = append(addrs, "::1", "[::1]")
+	}
+	addr := rapid.SampledFrom(addrs).Draw(t, "addr")
+	trace := []string{fmt.Sprintf("olareg serve --addr %s %s ; signal %v %s", addr, strings.Join(v.args("<dir>"), " "), sig, moment)}
 	fail := func(key, f string, a ...any) { Fail(t, st, key, fmt.Sprintf(f, a...), trace, nil) }
 	// pre-existing content, written by an in-process writable server (with the referrers setting of the vector, so
 	// that the layout is marked converted only when the API is on)
@@ -446,7 +466,7 @@ func c19CLIProperty(t *rapid.T, st *Stats) {
 	// this check run side by side) can take it in between - that is the harness' problem, not the server's: try again
 	var p *c19Proc
 	for attempt := 0; attempt < 8; attempt++ {
-		p, err = c19Start(bin, v.args(dir), c19FreePort())
+		p, err = c19Start(bin, v.args(dir), addr, c19FreePort())
 		if err == nil || !strings.Contains(err.Error(), "address already in use") {
 			break
 		}
